@@ -10,13 +10,13 @@ import (
 type asm struct{ b []byte }
 
 const (
-	opPUSH0, opPUSHDATA1, opPUSHDATA2, opPUSHDATA4, opPUSHM1, opPUSH1 = 0x00, 0x4C, 0x4D, 0x4E, 0x4F, 0x51
-	opNOP, opJMP, opJMPIF, opJMPIFNOT, opCALL, opRET, opAPPCALL, opSYSCALL, opTAILCALL = 0x61, 0x62, 0x63, 0x64, 0x65, 0x66, 0x67, 0x68, 0x69
+	opPUSH0, opPUSHDATA1, opPUSHDATA2, opPUSHDATA4, opPUSHM1, opPUSH1                                                                                  = 0x00, 0x4C, 0x4D, 0x4E, 0x4F, 0x51
+	opNOP, opJMP, opJMPIF, opJMPIFNOT, opCALL, opRET, opAPPCALL, opSYSCALL, opTAILCALL                                                                 = 0x61, 0x62, 0x63, 0x64, 0x65, 0x66, 0x67, 0x68, 0x69
 	opDUPFROMALT, opTOALT, opFROMALT, opXDROP, opDCALL, opXSWAP, opXTUCK, opDEPTH, opDROP, opDUP, opNIP, opOVER, opPICK, opROLL, opROT, opSWAP, opTUCK = 0x6A, 0x6B, 0x6C, 0x6D, 0x6E, 0x72, 0x73, 0x74, 0x75, 0x76, 0x77, 0x78, 0x79, 0x7A, 0x7B, 0x7C, 0x7D
-	opCAT, opSUBSTR, opLEFT, opRIGHT, opSIZE                                          = 0x7E, 0x7F, 0x80, 0x81, 0x82
-	opEQUAL, opINC, opDEC, opNOT, opADD, opSUB, opLT, opGT                             = 0x87, 0x8B, 0x8C, 0x91, 0x93, 0x94, 0x9F, 0xA0
-	opARRAYSIZE, opPACK, opUNPACK, opPICKITEM, opSETITEM, opNEWARRAY, opNEWSTRUCT, opNEWMAP = 0xC0, 0xC1, 0xC2, 0xC3, 0xC4, 0xC5, 0xC6, 0xC7
-	opAPPEND, opREVERSE, opREMOVE, opHASKEY, opKEYS, opVALUES, opTHROW, opTHROWIFNOT     = 0xC8, 0xC9, 0xCA, 0xCB, 0xCC, 0xCD, 0xF0, 0xF1
+	opCAT, opSUBSTR, opLEFT, opRIGHT, opSIZE                                                                                                           = 0x7E, 0x7F, 0x80, 0x81, 0x82
+	opEQUAL, opINC, opDEC, opNOT, opADD, opSUB, opLT, opGT                                                                                             = 0x87, 0x8B, 0x8C, 0x91, 0x93, 0x94, 0x9F, 0xA0
+	opARRAYSIZE, opPACK, opUNPACK, opPICKITEM, opSETITEM, opNEWARRAY, opNEWSTRUCT, opNEWMAP                                                            = 0xC0, 0xC1, 0xC2, 0xC3, 0xC4, 0xC5, 0xC6, 0xC7
+	opAPPEND, opREVERSE, opREMOVE, opHASKEY, opKEYS, opVALUES, opTHROW, opTHROWIFNOT                                                                   = 0xC8, 0xC9, 0xCA, 0xCB, 0xCC, 0xCD, 0xF0, 0xF1
 )
 
 func (a *asm) op(o ...byte) *asm { a.b = append(a.b, o...); return a }
